@@ -10,9 +10,9 @@ EXTENDS Integers, Sequences, FiniteSets, TLC, Json, IOUtils
 Trace == ndJsonDeserialize(IOEnv.VH_TRACE)
 
 CONSTANTS Keys, Payloads, MaxSteps
-VARIABLES dir, entries, last, steps, l, enforce
+VARIABLES dir, entries, last, steps, script, l, enforce
 S == INSTANCE Store
-tvars == <<dir, entries, last, steps, l, enforce>>
+tvars == <<dir, entries, last, steps, script, l, enforce>>
 
 Eff(d) == IF enforce THEN d ELSE IF d \in {"readonly", "noaccess"} THEN "present" ELSE d
 DocOf(e) == [id |-> e.id, payload |-> e.doc]
@@ -50,7 +50,7 @@ NextEntries(e) ==
     [] e.op = "Delete" -> IF e.id \in DOMAIN entries THEN S!Del(entries, e.id) ELSE entries
     [] OTHER -> entries
 
-Init == l = 1 /\ dir = "absent" /\ entries = <<>> /\ last = <<>> /\ steps = 0 /\ enforce = TRUE
+Init == l = 1 /\ dir = "absent" /\ entries = <<>> /\ last = <<>> /\ steps = 0 /\ script = <<>> /\ enforce = TRUE
 Next == /\ l <= Len(Trace)
         /\ LET e == Trace[l] IN
              IF e.op = "Reset"
@@ -58,7 +58,7 @@ Next == /\ l <= Len(Trace)
              ELSE LET v == Judge(e) IN
                   /\ IF v = {} THEN TRUE ELSE PrintT(<<"VERDICT", e.sid, l, v>>)
                   /\ dir' = NextDir(e) /\ entries' = NextEntries(e) /\ enforce' = enforce
-        /\ l' = l + 1 /\ UNCHANGED <<last, steps>>
+        /\ l' = l + 1 /\ UNCHANGED <<last, steps, script>>
 Spec == Init /\ [][Next]_tvars
 Done == TLCGet("stats").diameter - 1 = Len(Trace)
 =============================================================================
